@@ -9,7 +9,7 @@
      analysis_check_loc_var.go: one scope's unused-local diagnostics are produced while ranging over a map.
    Assumption: no protocol-prefix configuration (ExtraGlobal.StrProPre = "" everywhere). *)
 From Coq Require Import List NArith Bool.
-From LH Require Import Base.Bytes Model.FileIndex.
+From LH Require Import Base.Bytes Model.FileIndex Model.ModulePath.
 Import ListNotations.
 Local Open Scope N_scope.
 
@@ -48,6 +48,34 @@ Definition merge (items : list (list N * gvar)) : gtable := fold_left merge_step
 Definition flatten (fs : list (list N * list (list N * gvar))) : list (list N * gvar) :=
   flat_map snd fs.
 Definition merge_files (fs : list (list N * list (list N * gvar))) : gtable := merge (flatten fs).
+
+(* ---- generateAllGlobalMaps as a whole: `for strFile := range third.AllIncludeFile` (the keys `files` in the order
+        the iteration produced them), `fileStruct := a.fileStructMap[strFile]` (globals_of), `for strName, oneVar :=
+        range fileResult.GlobalMaps` (the list globals_of strFile in the order that iteration produced).
+        fx = false: the code before the repair: the files are visited in map order;
+        fx = true : fixes/C09-deterministic-order.diff: the keys are collected and sorted (sort.Strings = bytewise
+                    lexicographic) before they are visited ---- *)
+Fixpoint insert_path (p : list N) (l : list (list N)) {struct l} : list (list N) :=
+  match l with
+  | [] => [p]
+  | h :: t => if bytes_ltb h p then h :: insert_path p t else p :: l
+  end.
+Definition sort_paths (l : list (list N)) : list (list N) := fold_right insert_path [] l.
+
+Definition visit_order (fx : bool) (files : list (list N)) : list (list N) :=
+  if fx then sort_paths files else files.
+
+Definition merge_ws (fx : bool) (globals_of : list N -> list (list N * gvar)) (files : list (list N)) : gtable :=
+  merge (flat_map globals_of (visit_order fx files)).
+
+(* the representation invariant of the inner Go map (GlobalMaps is keyed by the global's name): boolean *)
+Fixpoint names_distinct (l : list (list N * gvar)) {struct l} : bool :=
+  match l with
+  | [] => true
+  | it :: t => negb (existsb (fun o => beq_bytes (fst it) (fst o)) t) && names_distinct t
+  end.
+Definition map_shaped (globals_of : list N -> list (list N * gvar)) (files : list (list N)) : bool :=
+  forallb (fun k => names_distinct (globals_of k)) files.
 
 (* FindThirdGlobalGInfo(false, name, ""): the last element of the vector *)
 Definition winner (t : gtable) (name : list N) : option gvar :=
